@@ -8,7 +8,7 @@ from vlib.verdict import Case
 
 PROPERTY = 'C14'
 MANIFEST = {
- 'level_text': 'Lean 4 theorems about a model of nested-command evaluation (one proxy per bracket level with its args/counter cursor, the nesting maximum, the reply / noReply / ignored-tag substitution rules, errors and silent commands stopping everything, the exception mapping of _callCommand) and of command dispatch (canonicalName, getCommand with nested command groups and the own-name rule, disabled commands, findCallbacksForArgs with longest prefix / own name / defaultPlugins / importantPlugins, the three-way decision of finalEval): for every token tree, every behaviour of the command bodies and every dispatch function the call log is a prefix of the left-to-right post-order of the tree (each sub-command at most once, inner first), it is the whole post-order when nothing stops, every call receives its sub-commands replaced by their reply texts as single arguments, no command deeper than the maximum runs; for every set of plugins a plugin-qualified command reaches that plugin, an ambiguous bare name runs nothing, a disabled command is never returned by getCommand. Kernel-checked; the model is tied to src/callbacks.py by a differential correspondence run on a live bot (real Owner/Misc/... plus instrumented synthetic plugins with overlapping names, groups and threaded commands) that also evaluates the property statement on the implementation call log.',
+ 'level_text': 'Lean 4 theorems about a model of nested-command evaluation (one proxy per bracket level with its args/counter cursor, the nesting maximum, the reply / noReply / ignored-tag substitution rules, truncation to reply.maximumLength, errors and silent commands stopping everything, the exception mapping of _callCommand incl. the IndexError path of an emptied argument list) and of command dispatch (canonicalName, getCommand with nested command groups and the own-name rule, disabled commands, findCallbacksForArgs with longest prefix / own name / defaultPlugins / importantPlugins, the three-way decision of finalEval). For every token tree, every behaviour of the command bodies and every dispatch function: the sub-commands that run form a sub-sequence of the left-to-right post-order of the tree (none twice, inner first, left to right); when dispatch raises nothing they form a prefix (nothing runs after a stop) and the whole post-order when the line is answered; when every command replies or calls noReply the evaluation is exactly function application (each sub-command replaced by its truncated reply text as one argument, or by nothing); no sub-command deeper than the maximum runs and such a line is always stopped (with the nesting error when everything replies). For every set of plugins: getCommand returns a prefix of its arguments naming an enabled command, a plugin-qualified command reaches that plugin, an ambiguous bare name is reported and runs nothing, canonicalName is idempotent. Kernel-checked; the model is tied to src/callbacks.py by a differential correspondence run on a live bot (real Owner/Misc/... plus instrumented synthetic plugins with overlapping names, command groups and threaded commands; also end to end through Owner.doPrivmsg and the tokenizer) that evaluates the property statement on the implementation call log.',
  'level_note': 'Trusted: Lean kernel (axioms propext/Classical.choice/Quot.sound only); the correspondence harness (generators, introspection of the loaded plugins into the model\'s plugin table, canonicalisation of replies). Modelled and proved: evalArgs/finalEval/reply/noReply/error control flow as a big-step evaluator, nesting maximum, getCommand/isCommandMethod/isDisabled, findCallbacksForArgs, canonicalName (ASCII). Not modelled: thread scheduling (a threaded command continues the same evaluation on its own thread; the harness joins threads), capability checks in _callCommand (C01), invalidCommand handlers (outcome "invalid"), command bodies that use irc more than once, Unicode case folding in canonicalName, registry lookup of the configuration values.',
  'technique': 'Lean 4 proof (structural induction on token trees / plugin trees) + differential correspondence on a live bot',
  'design_ref': 'DESIGN.md §6 C14',
